@@ -277,6 +277,8 @@ def _length_guarded(prog, fn: FuncInfo, sub: ast.Subscript, k: int) -> bool:
     """x[k] lies inside ``if len(x) > k`` (any spelling), or after ``if len(x) <= k: return / raise / continue``."""
     need = k + 1 if k >= 0 else -k
     target = norm(sub.value)
+    from ..astutil import single_assignments
+    local = single_assignments(fn.node) if not fn.is_lambda else {}
 
     def min_len(test: ast.expr, truth: bool) -> int:
         """the length of x this test outcome guarantees (0 = nothing)"""
@@ -289,6 +291,7 @@ def _length_guarded(prog, fn: FuncInfo, sub: ast.Subscript, k: int) -> bool:
         if isinstance(test, ast.Compare) and len(test.ops) == 1:
             l, op, r = test.left, test.ops[0], test.comparators[0]
             flip = {ast.Lt: ast.Gt, ast.LtE: ast.GtE, ast.Gt: ast.Lt, ast.GtE: ast.LtE, ast.Eq: ast.Eq, ast.NotEq: ast.NotEq}
+            l, r = local.get(l.id, l) if isinstance(l, ast.Name) else l, local.get(r.id, r) if isinstance(r, ast.Name) else r     # n = len(x) kept in a local
             if isinstance(r, ast.Call) and norm(r.func) == "len" and type(op) in flip:
                 l, op, r = r, flip[type(op)](), l
             if isinstance(l, ast.Call) and norm(l.func) == "len" and len(l.args) == 1 and norm(l.args[0]) == target:
@@ -330,6 +333,35 @@ def _length_guarded(prog, fn: FuncInfo, sub: ast.Subscript, k: int) -> bool:
     return bool(r)
 
 
+def is_future_expr(fn: FuncInfo, e: ast.expr, depth: int = 0) -> bool:
+    """The expression denotes an asyncio future of a request: self.response_future, a name that says so, or a local /
+    parameter bound (once) to create_future(), to what send_request() returns, or to another such expression."""
+    c = chain(e)
+    if c and c[-1] == "response_future":
+        return True
+    if isinstance(e, ast.Name):
+        if "future" in e.id.lower():
+            return True
+        if depth > 3 or fn.is_lambda:
+            return False
+        from ..astutil import single_assignments
+        v = single_assignments(fn.node).get(e.id)
+        if v is None:
+            # a parameter annotated as Future
+            a = fn.node.args
+            for prm in a.posonlyargs + a.args + a.kwonlyargs:
+                if prm.arg == e.id and prm.annotation is not None and "Future" in norm(prm.annotation):
+                    return True
+            return False
+        if isinstance(v, ast.Await):
+            v = v.value
+            return isinstance(v, ast.Call) and (call_chain(v) or ("",))[-1] == "send_request"
+        if isinstance(v, ast.Call) and (call_chain(v) or ("",))[-1] in ("create_future", "Future", "_max_retries_reached"):
+            return True
+        return is_future_expr(fn, v, depth + 1)
+    return False
+
+
 def net_prim(ctx: Ctx):
     prog = ctx.prog
     cancelled = prog.ext_class("asyncio.CancelledError")
@@ -362,7 +394,7 @@ def net_prim(ctx: Ctx):
         if isinstance(node, ast.Await):
             v = node.value
             c = chain(v)
-            if c and c[-1] == "response_future" or (isinstance(v, ast.Name) and "future" in v.id):
+            if (c and c[-1] == "response_future") or is_future_expr(fn, v):
                 out.append(cancelled)
                 out.extend(futexc)
             if isinstance(v, ast.Call):
@@ -374,7 +406,7 @@ def net_prim(ctx: Ctx):
         elif isinstance(node, ast.Call):
             cc = call_chain(node) or ()
             last = cc[-1] if cc else ""
-            if last == "result" and len(cc) >= 2 and "future" in cc[-2]:
+            if last == "result" and len(cc) >= 2 and ("future" in cc[-2] or (isinstance(node.func, ast.Attribute) and is_future_expr(fn, node.func.value))):
                 out.append(cancelled)
                 out.extend(futexc)
             if isinstance(node.func, ast.Attribute) and node.func.attr == "decode" and not isinstance(node.func.value, ast.Constant):
@@ -484,7 +516,7 @@ def _callback_oracle(ctx: Ctx):
             c = call_chain(node) or ()
             if c and c[-1] == "validator":
                 return [partial, rejected]
-            if c and c[-1] in ("set_result", "set_exception") and len(c) >= 2 and "future" in c[-2]:
+            if c and c[-1] in ("set_result", "set_exception") and len(c) >= 2 and ("future" in c[-2] or (isinstance(node.func, ast.Attribute) and is_future_expr(fn, node.func.value))):
                 return [ise]
         return []
     return oracle
